@@ -110,12 +110,22 @@ def setup_forest():
     return d
 
 
+def late_exists(name):
+    """is the late module importable by now (its file exists in the main directory, or in a directory that was put on the path)"""
+    return os.path.exists(os.path.join(_state["dir"], LATE[name])) or name in _state.get("elsewhere", {})
+
+
 def purge():
     for rel in LATE.values():
         try:
             os.remove(os.path.join(_state["dir"], rel))
         except OSError:
             pass
+    for name, newdir in list(_state.get("elsewhere", {}).items()):
+        if newdir in sys.path:
+            sys.path.remove(newdir)
+        shutil.rmtree(newdir, ignore_errors=True)
+    _state["elsewhere"] = {}
     for name in list(sys.modules):
         if name.split(".")[0] in TOP:
             del sys.modules[name]
@@ -273,13 +283,29 @@ def check_history(ctx, ops):
                 model.do_import(op[1])
             elif kind == "create":
                 path = os.path.join(_state["dir"], LATE[op[1]])
-                if not os.path.exists(path):
+                if not late_exists(op[1]):
                     with open(path, "w") as f:
                         f.write(LATE_SRC)
                     importlib.invalidate_caches()
                     model.flags.add("module-appears-later")
+            elif kind == "create-elsewhere":
+                # the module becomes reachable through a NEW path entry (a directory appended to sys.path / to the package's __path__):
+                # stock importlib needs no invalidate_caches() for that
+                if not late_exists(op[1]) and (op[1] == "latemod" or "foo" in sys.modules):
+                    _state["counter"] = _state.get("counter", 0) + 1
+                    newdir = os.path.join(_state["dir"], f"elsewhere{_state['counter']}")
+                    os.makedirs(newdir)
+                    with open(os.path.join(newdir, LATE[op[1]].rsplit("/", 1)[-1]), "w") as f:
+                        f.write(LATE_SRC)
+                    if op[1] == "latemod":
+                        sys.path.append(newdir)
+                    else:
+                        sys.modules["foo"].__path__.append(newdir)
+                    _state.setdefault("elsewhere", {})[op[1]] = newdir
+                    model.flags.add("module-appears-later")
+                    model.flags.add("module-appears-through-new-path-entry")
             elif kind == "try-import":
-                exists = os.path.exists(os.path.join(_state["dir"], LATE[op[1]]))
+                exists = late_exists(op[1])
                 try:
                     importlib.import_module(op[1])
                     failed = None
@@ -376,6 +402,7 @@ op_st = st.one_of(
     st.tuples(st.just("lazy")),
     st.tuples(st.just("try-import"), st.sampled_from(sorted(LATE))),
     st.tuples(st.just("create"), st.sampled_from(sorted(LATE))),
+    st.tuples(st.just("create-elsewhere"), st.sampled_from(sorted(LATE))),
     st.tuples(st.just("import-zip"), st.sampled_from(["zmod", "zpkg", "zpkg.inner"])),
     st.tuples(st.just("try-import"), st.sampled_from(sorted(LATE))),
     st.tuples(st.just("disable"), st.sampled_from([True, False, True])),
